@@ -8,9 +8,9 @@ for spec in "$@"; do
   git -C $WT checkout -q -- . ; git -C $WT clean -fdq >/dev/null 2>&1
   git -C $WT apply ${SEED_OUT:-/tmp/seed/out}/$id/patch$n.diff || { echo -e "$id\t$n\t-\tPATCH-FAILS" >> $OUT; continue; }
   for c in $checks; do
-    SYMX_REPO=$WT SYMX_EVIDENCE_DIR=/verif/out/try_evidence ${TIER_ENV:-} /verif/check $c ${TIER:-quick} > /verif/out/seed_${id}_${n}_$c.log 2>&1; rc=$?
-    nv=$(grep -c '^VIOLATION' /verif/out/seed_${id}_${n}_$c.log); nh=$(grep -c '^HARNESS-ERROR' /verif/out/seed_${id}_${n}_$c.log); ni=$(grep -c '^INCONCLUSIVE' /verif/out/seed_${id}_${n}_$c.log)
-    first=$(grep -A1 '^VIOLATION' /verif/out/seed_${id}_${n}_$c.log | grep obligation | head -1 | sed 's/  obligation: //')
+    SYMX_REPO=$WT SYMX_EVIDENCE_DIR=/verif/out/try_evidence ${TIER_ENV:-} /verif/check $c ${TIER:-quick} > /verif/out/seed${SEED_TAG:-}_${id}_${n}_$c.log 2>&1; rc=$?
+    nv=$(grep -c '^VIOLATION' /verif/out/seed${SEED_TAG:-}_${id}_${n}_$c.log); nh=$(grep -c '^HARNESS-ERROR' /verif/out/seed${SEED_TAG:-}_${id}_${n}_$c.log); ni=$(grep -c '^INCONCLUSIVE' /verif/out/seed${SEED_TAG:-}_${id}_${n}_$c.log)
+    first=$(grep -A1 '^VIOLATION' /verif/out/seed${SEED_TAG:-}_${id}_${n}_$c.log | grep obligation | head -1 | sed 's/  obligation: //')
     echo -e "$id\t$n\t$c\texit=$rc\tviol=$nv\therr=$nh\tinconcl=$ni\t$first" >> $OUT
   done
   git -C $WT checkout -q -- .
